@@ -317,7 +317,7 @@ def gen_cases(tier, seed):
     small = all_small_trees()
     plans = []
     dests = ["", "d", "d/e", "/abs/x", "w2", "/w/v/deep/er"]
-    n = 260 if tier == "quick" else 5000
+    n = 260 if tier == "quick" else 25000
     i = 0
     while len(plans) < n:
         i += 1
